@@ -16,7 +16,10 @@ THEOREMS = [
     "Remoc.Watch.link_quiescent",
     "Remoc.Watch.inv_step",
 ]
-RULE = ("generated cases on the real rch::watch (single-threaded paused runtime): one sender, up to 8 receivers, purely local "
+RULE = ("(oversize cases, one per 25 ordinary ones: byte-vector values, the receiving endpoint deserialises the receiver with a 64-byte "
+        "item limit the sender does not have; updates above the limit are receive errors for those updates only, at quiescence the "
+        "receiver reads the last value sent and its channel has not ended) "
+        "generated cases on the real rch::watch (single-threaded paused runtime): one sender, up to 8 receivers, purely local "
         "or over a chain of 1-3 real connections (Connect::io on tokio duplex); random interleavings of send / send_replace / "
         "send_modify (single and bursts of 2-5), borrow, borrow_and_update, has_changed, changed, wait_for, the ReceiverStream "
         "wrapper, clone, subscribe, sending a receiver to the neighbouring endpoint in either direction (repeatedly: up to ~10 "
